@@ -37,6 +37,26 @@
 (* All registered cfgs use the second value: the behaviours replayed into  *)
 (* the code are those of the design that satisfies C25.                    *)
 (*                                                                         *)
+(* Refused presentations and the cache.  Every exit of VerifyProof before   *)
+(* checkAndAdd leaves the cache alone, whatever nonce the refused header    *)
+(* carried.  Two things make that a checked statement rather than a         *)
+(* self-loop nobody walks twice:                                            *)
+(*   - the nonce field of a form can be "nfresh" (a well-formed nonce no    *)
+(*     proof carries and nobody presented before) or "nother" (the nonce of *)
+(*     the next proof of the palette: pre-burning) - always under a MAC     *)
+(*     that is not right, a forger has no key;                              *)
+(*   - the ghost `press` counts the run of refused, nonce-carrying          *)
+(*     presentations at one exit (up to PressMax of them, the first with    *)
+(*     any nonce, the following ones with fresh nonces).  It is part of the *)
+(*     VIEW, so edges mode walks "k refusals at exit X, then the canonical  *)
+(*     form of every proof" from every cache state, for k up to the         *)
+(*     largest capacity.                                                    *)
+(* TouchOn names the refusing exits that run checkAndAdd on the presented   *)
+(* nonce before they refuse: {} is the code; {"Gate_BadMac"} is the design  *)
+(* "look the nonce up before paying for the HMAC" (MC_premac.cfg: refused   *)
+(* forgeries evict an accepted proof's nonce -> NoReplayWhileValid VIOLATED,*)
+(* and pre-burn a nonce -> GateComplete VIOLATED).                          *)
+(*                                                                         *)
 (* Property C25 is stated declaratively at the end (GateOnlyIf,            *)
 (* UniformRefusal, NoReplayWhileValid, BurstAdmitsOne).                    *)
 (***************************************************************************)
@@ -66,6 +86,9 @@ CONSTANTS
     DevVals,       \* ... and every deviating value is in this set ({"*"} = any)
     PresentBudget, \* number of presentations per behaviour; 0 = unlimited
     BurstN,        \* goroutines of a Burst; 0 disables the action
+    PressMax,      \* longest run of refused nonce-carrying presentations the ghost `press`
+                   \*   tells apart (>= the largest capacity on offer); 0 = ghost off
+    TouchOn,       \* refusing exits that run checkAndAdd before refusing; {} = the code
     Mode,          \* "mc" | "edges" | "tree"
     Depth          \* tree mode: emit behaviours of exactly this length
 
@@ -77,9 +100,12 @@ VARIABLES
     since,         \* ghost: since[p] = the distinct proofs the cache has admitted since p was
                    \*        last accepted, p included; {} while p was never accepted
     spent,         \* presentations made (stays 0 when the budget is unlimited)
+    press,         \* ghost: the current run of refused presentations [br, k, o]: k of them, all
+                   \*        at exit br, the first carrying nonce id o (0 = a fresh one), the
+                   \*        others fresh nonces; k = 0: no run
     hist           \* observation/history variable: sequence of step records
 
-vars == <<conf, proofs, now, cache, since, spent, hist>>
+vars == <<conf, proofs, now, cache, since, spent, press, hist>>
 
 PIds == 1..NProofs
 Abs(x) == IF x < 0 THEN -x ELSE x
@@ -109,7 +135,10 @@ KidC   == {"kown",      \* the key id the proof was minted under (configured)
 TscC   == {"town",      \* decimal rendering of the proof's timestamp
            "nondigit", "digits21", "tempty",
            "overflow"}  \* 20 digits, does not fit int64
-NonceC == {"n22", "n21", "n23", "ncharset"}
+NonceC == {"n22",        \* the proof's own nonce
+           "n21", "n23", "ncharset",
+           "nfresh",     \* 22 url-safe characters that no proof carries and nobody has presented
+           "nother"}     \* the nonce of the next proof of the palette
 MacC   == {"right",        \* key configured for the claimed kid, this worker's origin
            "otherOrigin",  \* minted for another worker
            "otherKey",     \* key of the other configured kid
@@ -135,7 +164,11 @@ FormsUpTo(n) ==
 \* (TLCEval: enumerate once instead of at every use)
 Forms == TLCEval({f \in FormsUpTo(MaxDev) :
             \* without a header value the other fields do not exist
-            f.hdr \in {"none", "hempty"} => DevFields(f) = {"hdr"}})
+            /\ f.hdr \in {"none", "hempty"} => DevFields(f) = {"hdr"}
+            \* another nonce under a right MAC would be another genuine proof: those are the
+            \* palette proofs[]; a form is what someone without the key does to a header
+            /\ f.nonce \in {"nfresh", "nother"} => f.mac # "right"
+            /\ f.nonce = "nother" => NProofs > 1})
 
 BuildClasses == {"ok", "mode_off", "mode_bogus", "origin_bad", "no_secrets",
                  "kid_bad", "secret_short", "skew_zero", "skew_negative"}
@@ -155,7 +188,7 @@ PreLadder(f) == <<
   [br |-> "Gate_Version",         reason |-> "malformed",   fails |-> f.ver # "v1"],
   [br |-> "Gate_KidCharset",      reason |-> "malformed",   fails |-> f.kid \in {"kcharset", "k65", "kempty", "khuge"}],
   [br |-> "Gate_TsCharset",       reason |-> "malformed",   fails |-> f.tsc \in {"nondigit", "digits21", "tempty"}],
-  [br |-> "Gate_NonceCharset",    reason |-> "malformed",   fails |-> f.nonce # "n22"],
+  [br |-> "Gate_NonceCharset",    reason |-> "malformed",   fails |-> f.nonce \in {"n21", "n23", "ncharset"}],
   [br |-> "Gate_MacCharset",      reason |-> "malformed",   fails |-> f.mac \in {"m42", "m44", "mcharset"}],
   [br |-> "Gate_UnknownKid",      reason |-> "unknown_kid", fails |-> f.kid = "unknown"],
   [br |-> "Gate_TsOverflow",      reason |-> "malformed",   fails |-> f.tsc = "overflow"] >>
@@ -201,6 +234,45 @@ EvictWhileFull(c, cap) ==     \* for order.Len() >= capacity: drop front
 
 Nonces(c) == {c[i].n : i \in 1..Len(c)}
 
+\* checkAndAdd(n) on cache c at time t: the cache afterwards
+CheckAndAdd(c, n, t) ==
+    LET swept == SweepPrefix(c, t) IN
+    IF n \in Nonces(swept) THEN swept
+    ELSE Append(EvictWhileFull(swept, Capacity), [n |-> n, e |-> t + TTLTicks])
+
+--------------------------------------------------------------------------
+(* Which nonce a presentation carries.                                      *)
+OtherP(p) == (p % NProofs) + 1
+\* the header has a nonce field the code gets to see: one header line of five fields
+CarriesNonce(f) == /\ f.hdr = "one" /\ f.shape = "f5" /\ f.kid # "khuge"
+                   /\ f.nonce \in {"n22", "nfresh", "nother"}
+\* its identity: a nonce id of the palette, or 0 for a fresh one
+NonceOf(p, f) == CASE f.nonce = "nother" -> proofs[OtherP(p)].nonce
+                   [] f.nonce = "nfresh" -> 0
+                   [] OTHER              -> proofs[p].nonce
+\* an id for a fresh nonce should it ever get into a cache (TouchOn # {}): any id that is
+\* neither a palette nonce nor in the cache is as good as a never-seen one
+MaxNonceId == CHOOSE m \in NonceIds : \A n \in NonceIds : n <= m
+FreshId(c) == CHOOSE n \in (MaxNonceId + 1)..(MaxNonceId + Len(c) + 1) : n \notin Nonces(c)
+
+NoPress == [br |-> "-", k |-> 0, o |-> 0]
+Idle == press.k = 0
+PressOn == PressMax > 0 /\ conf.cache
+\* While a run is on, the only things that happen are one more refusal of the same kind
+\* with a fresh nonce, or a probe: the canonical form of some proof (which ends the run).
+\* (IF, not \/: TLC would walk every true disjunct of an action guard and emit the step twice)
+MayRefuse(f, br) ==
+    IF Idle THEN TRUE
+    ELSE IF f = Canon THEN TRUE
+    ELSE /\ press.br = br /\ press.k < PressMax
+         /\ CarriesNonce(f) /\ f.nonce = "nfresh"
+MayAccept(f) == IF Idle THEN TRUE ELSE f = Canon
+PressAfterRefusal(p, f, br) ==
+    IF ~PressOn THEN press
+    ELSE IF ~Idle THEN (IF f = Canon THEN NoPress ELSE [press EXCEPT !.k = @ + 1])
+    ELSE IF CarriesNonce(f) THEN [br |-> br, k |-> 1, o |-> NonceOf(p, f)]
+    ELSE press
+
 --------------------------------------------------------------------------
 (* ProofAuthenticate's wrapper around the verdict of the gate.             *)
 Label(k) == k      \* ProofSecret.Label of a configured kid (the driver picks the strings)
@@ -239,12 +311,24 @@ SinceAfterAdmit(p) ==
     [q \in PIds |-> IF q = p THEN {p}
                     ELSE IF since[q] # {} THEN since[q] \cup {p} ELSE {}]
 
-(* Every exit of VerifyProof before the cache: nothing is remembered.      *)
+(* Every exit of VerifyProof before the cache: nothing is remembered -      *)
+(* unless the exit is in TouchOn (not the code): then checkAndAdd has run   *)
+(* on the presented nonce first, and a nonce it knew is reported as such.   *)
+Touches(f, br) == br \in TouchOn /\ conf.cache /\ CarriesNonce(f)
 Refuse(p, f, br, reason) ==
+    /\ MayRefuse(f, br)
     /\ Spend
-    /\ UNCHANGED <<conf, proofs, now, cache, since>>
-    /\ Record([a |-> br, args |-> [p |-> p, f |-> f, now |-> now],
-               exp |-> Answer(FALSE, reason, p)])
+    /\ press' = PressAfterRefusal(p, f, br)
+    /\ UNCHANGED <<conf, proofs, now, since>>
+    /\ IF Touches(f, br)
+       THEN LET swept == SweepPrefix(cache, now)
+                n == IF NonceOf(p, f) = 0 THEN FreshId(swept) ELSE NonceOf(p, f) IN
+            /\ cache' = CheckAndAdd(cache, n, now)
+            /\ Record([a |-> br, args |-> [p |-> p, f |-> f, now |-> now],
+                       exp |-> Answer(FALSE, IF n \in Nonces(swept) THEN "replayed" ELSE reason, p)])
+       ELSE /\ UNCHANGED cache
+            /\ Record([a |-> br, args |-> [p |-> p, f |-> f, now |-> now],
+                       exp |-> Answer(FALSE, reason, p)])
 
 PreRefusal(i) ==
     \E p \in PIds, f \in FormsAt[i] :
@@ -286,18 +370,19 @@ NoCache_Verified ==
     \E p \in PIds, f \in Forms :
        /\ CanPresent /\ ReachesCache(p, f) /\ ~conf.cache
        /\ Spend
-       /\ UNCHANGED <<conf, proofs, now, cache, since>>
+       /\ UNCHANGED <<conf, proofs, now, cache, since, press>>
        /\ Record([a |-> "NoCache_Verified", args |-> [p |-> p, f |-> f, now |-> now],
                   exp |-> Answer(TRUE, "ok", p)])
 
 (* checkAndAdd returns false: the sweep has run, nothing is added.          *)
 Cache_Replayed ==
     \E p \in PIds, f \in Forms :
-       /\ CanPresent /\ ReachesCache(p, f) /\ conf.cache
+       /\ CanPresent /\ ReachesCache(p, f) /\ conf.cache /\ MayAccept(f)
        /\ LET swept == SweepPrefix(cache, now) IN
           /\ proofs[p].nonce \in Nonces(swept)
           /\ cache' = swept
        /\ Spend
+       /\ press' = NoPress
        /\ UNCHANGED <<conf, proofs, now, since>>
        /\ Record([a |-> "Cache_Replayed", args |-> [p |-> p, f |-> f, now |-> now],
                   exp |-> Answer(FALSE, "replayed", p)])
@@ -306,13 +391,14 @@ Cache_Replayed ==
 (* pushed with expiresAt = now + ttl.                                       *)
 Cache_Admitted ==
     \E p \in PIds, f \in Forms :
-       /\ CanPresent /\ ReachesCache(p, f) /\ conf.cache
+       /\ CanPresent /\ ReachesCache(p, f) /\ conf.cache /\ MayAccept(f)
        /\ LET swept == SweepPrefix(cache, now) IN
           /\ proofs[p].nonce \notin Nonces(swept)
           /\ cache' = Append(EvictWhileFull(swept, Capacity),
                              [n |-> proofs[p].nonce, e |-> now + TTLTicks])
        /\ since' = SinceAfterAdmit(p)
        /\ Spend
+       /\ press' = NoPress
        /\ UNCHANGED <<conf, proofs, now>>
        /\ Record([a |-> "Cache_Admitted", args |-> [p |-> p, f |-> f, now |-> now],
                   exp |-> Answer(TRUE, "ok", p)])
@@ -322,7 +408,7 @@ Cache_Admitted ==
 (* sequential presentation followed by BurstN-1 replays of it.              *)
 Burst ==
     \E p \in PIds :
-       /\ CanPresent /\ BurstN > 0 /\ conf.mode = "require"
+       /\ CanPresent /\ BurstN > 0 /\ conf.mode = "require" /\ Idle
        /\ LET ok    == ReachesCache(p, Canon)
               swept == SweepPrefix(cache, now)
               fresh == proofs[p].nonce \notin Nonces(swept)
@@ -339,21 +425,21 @@ Burst ==
                      exp |-> [admitted |-> n,
                               inner |-> IF conf.inner = "none" THEN 0 ELSE n]])
        /\ Spend
-       /\ UNCHANGED <<conf, proofs, now>>
+       /\ UNCHANGED <<conf, proofs, now, press>>
 
 Tick ==
     \E d \in TickSteps :
-       /\ Budget /\ conf.build = "ok"
+       /\ Budget /\ conf.build = "ok" /\ Idle
        /\ now + d <= MaxNow
        /\ now' = now + d
-       /\ UNCHANGED <<conf, proofs, cache, since, spent>>
+       /\ UNCHANGED <<conf, proofs, cache, since, spent, press>>
        /\ Record([a |-> "Tick", args |-> [d |-> d, now |-> now + d], exp |-> [now |-> now + d]])
 
 (* ProofAuthenticate refuses to build a gate from a bad configuration.      *)
 Build_Refused ==
     /\ Budget /\ conf.build # "ok" /\ spent = 0
     /\ spent' = 1
-    /\ UNCHANGED <<conf, proofs, now, cache, since>>
+    /\ UNCHANGED <<conf, proofs, now, cache, since, press>>
     /\ Record([a |-> "Build_Refused", args |-> [build |-> conf.build], exp |-> [built |-> FALSE]])
 
 Init ==
@@ -374,6 +460,7 @@ Init ==
     /\ cache = <<>>
     /\ since = [p \in PIds |-> {}]
     /\ spent = 0
+    /\ press = NoPress
     /\ hist = << [a |-> "Init",
                   args |-> [Skew |-> Skew, Sub |-> Sub, now |-> Start, conf |-> conf,
                             proofs |-> proofs, BurstN |-> BurstN, DefaultCap |-> DefaultCap],
@@ -393,7 +480,8 @@ Spec == Init /\ [][Next]_vars
 (* Properties of the viewed state (INVARIANTs).                             *)
 TypeOK ==
     /\ now \in Start..MaxNow
-    /\ \A i \in 1..Len(cache) : cache[i].n \in NonceIds
+    /\ \A i \in 1..Len(cache) : cache[i].n \in NonceIds \/ (TouchOn # {} /\ cache[i].n \in Nat)
+    /\ press.k \in 0..PressMax /\ press.o \in NonceIds \cup {0}
     /\ \A p \in PIds : since[p] \subseteq PIds
 
 \* "Uniform TTL means insertion order is expiry order, so expired entries are always a prefix"
@@ -475,5 +563,5 @@ GateComplete ==
                   proofs[q].nonce = proofs[Last.args.p].nonce => since[q] = {}))
            => Last.exp.verified /\ Last.exp.pass ]_vars
 
-View == <<conf, proofs, now, cache, since, spent>>
+View == <<conf, proofs, now, cache, since, spent, press>>
 =============================================================================
